@@ -11,7 +11,7 @@
      hist_inv st0 st log  occupancy(st) = occupancy(st0) + exactly the accepted ranges of log,
                           every accepted slot was FREE initially, no two accepted entries share a slot of an OMS *)
 From Verif Require Import Prelude Model.Spectrum.
-From Verif Require Import Proofs.SpectrumBase Proofs.Spectrum Proofs.Spectrum2 Proofs.Spectrum3 Proofs.Spectrum4 Proofs.Spectrum5 Proofs.Spectrum6.
+From Verif Require Import Proofs.SpectrumBase Proofs.Spectrum Proofs.Spectrum2 Proofs.Spectrum3 Proofs.Spectrum4 Proofs.Spectrum5 Proofs.Spectrum6 Proofs.Spectrum7.
 From Verif Require Import Model.Oms Gen.SpectrumGen Proofs.SpectrumGen.
 From Coq Require Import Permutation Lia.
 Open Scope Z_scope.
@@ -71,6 +71,19 @@ Theorem C14_never_raises : forall d p st rq,
   exists r, pth_assign_one p st rq = Ok r.
 Proof. exact pth_assign_one_total. Qed.
 Print Assumptions C14_never_raises.
+
+(* First / last fit for EVERY slot whose N the user left free, multi-slot requests included: slots are processed in
+   order_slots order (larger M first, undefined M last); the centre given to a free-N slot is extremal among the
+   centres feasible on every OMS of path U reverse path once the slots processed before it are taken
+   (processed_ff_path, Proofs/Spectrum7.v); user-fixed values are used as given (slot_matches). *)
+Theorem C14_first_fit_every_slot : forall d p st rq st' ns ms,
+  WFst d st -> valid_ids st (path_oms rq) -> 0 < rq_required rq ->
+  pth_assign_one p st rq = Ok (st', Accepted ns ms) ->
+  exists done rest,
+    Permutation (combine ns ms) done /\
+    processed_ff_path p st (path_oms rq) [] (map snd (order_slots (slots rq))) done rest.
+Proof. exact pth_assign_one_first_fit. Qed.
+Print Assumptions C14_first_fit_every_slot.
 
 (* ---- second tie (translator): the primitives below are re-translated from /repo's source on every run
         (harness/pygen.py -> Gen/SpectrumGen.v) and proved equal to the hand-written model ---- *)
